@@ -209,3 +209,36 @@ for sid,(prop,what,needs,ran,checks) in M6.items():
           "result":ran,"caught_by":checks}
     json.dump(meta, open(d+'/meta.json','w'), indent=1)
 print(len(M6))
+
+M7 = {
+ "C01f": ("C01", "_apply_mst_to_source_fanout records a logical edge's colour with setdefault: an earlier spanning-tree hop of another producer under the same (source, sink, name) key wins (the logical-edge twin of C19d)", "a declared input a with fan-out, y = a * 2 on the same signal with fan-out, and one combinator taking both (y - a, y > a) placed next to y", "C01 quick exit 1 on first run (21); C19 exit 1 (2)", ["C01", "C19"]),
+ "C04f": ("C04", "the same de-duplication in _optimize_to_arithmetic_feedback as C04d, found independently", "a multi-combinator arithmetic feedback loop whose feedback edge lands on green (a same-typed addend computed before the loop)", "C04 quick exit 1 on first run (1)", ["C04"]),
+ "C08f": ("C08", "_compute_network_ids stores the relay network id under the edge's logical signal id instead of its resolved name: every lookup misses and returns 0, relays treat all connections as one network", "two connections longer than 9 tiles from different sources on one colour whose routes run close together", "C08 quick exit 1 on first run (40: emitted wiring joins networks the plan keeps apart); C12 exit 1 (82)", ["C08", "C12"]),
+ "C09f": ("C09", "_trim_power_poles recognises poles by prototype class (any electric pole) instead of the is_power_pole flag (a wider variant of C09d)", "--power-poles T and a place()d pole of ANY pole prototype with no consumer within T's supply radius", "C09 quick exit 1 on first run (23)", ["C09"]),
+ "C13f": ("C13", "the explicitly used names removed from the allocation pool are filtered with startswith('signal-'): arrows and shapes (27 virtual signals) stay in the pool although the program uses them", "an explicit arrow / shape signal and at least ~45 untyped values (the pool reaches the arrows at the 45th allocation, the shapes at the 53rd)", "C13 quick missed at first (30/45-value programs, explicit far names mostly `signal-*`); after adding explicit arrow/shape inputs and 60-value programs to the quick tier -> exit 1 (9: compiler-chosen signal is used explicitly by the program)", ["C13"]),
+ "C14f": ("C14", "_infer_bundle_literal_type takes the first nested bundle's signal_types SET as is (missing copy): the later elements widen the type of the nested variable itself", "`Bundle wide = { b, (\"signal-C\", 3) };` followed by the selection of that absent member from b", "C14 quick missed at first; after adding the select_after_wider_literal variants -> exit 1 (18)", ["C14"]),
+ "C15f": ("C15", "after an inlined call the callee's new entities are recognised by entity id instead of by name: a callee local `Entity lamp` re-binds the caller's `lamp`", "a callee-local entity named like a caller entity that the caller uses again after the call", "C15 quick exit 1 on first run (26)", ["C15"]),
+ "C17f": ("C17", "lower_function_call_inline binds each parameter as soon as its argument is lowered: while a later argument is lowered, earlier parameters already shadow caller variables of the same name", "a call whose later argument mentions a caller variable named like an earlier parameter of the callee (`min(b, a)`, `max(c, min(a, b))`)", "C17 and C15 quick missed at first; after adding arguments_named_like_parameters (C15) and parameter-named inputs for library calls (C17) -> C15 exit 1 (9), C17 exit 1 (4)", ["C17", "C15"]),
+ "C18f": ("C18", "PowerPlanner._add_pole derives the new pole id from the lexicographic max() of the existing ids: `power_pole_9` > `power_pole_10`, ids repeat and placements overwrite each other", "--power-poles (always with big) on a program large enough for pole ids to reach two digits while the completion pass still adds poles", "C18 quick exit 1 on first run (22: electric entity outside every supply area, no compiler warning for it)", ["C18"]),
+ "C20f": ("C20", "_build_debug_info no longer overrides the label with the declared name: a constant declaration bound to a second name is labelled with the alias only", "`Signal rate = (\"signal-A\", 5); Signal limit = rate;`", "C20 quick exit 1 on first run (51)", ["C20"]),
+}
+for sid,(prop,what,needs,ran,checks) in M7.items():
+    d='/verif/seeded/%s'%sid
+    os.makedirs(d, exist_ok=True)
+    conf={}
+    try: conf=json.load(open(d+'/confirm.json'))
+    except Exception: pass
+    base=None
+    try: base=subprocess.check_output(["git","-C","/tmp/wt_%s"%sid,"rev-parse","--short","HEAD"],text=True,stderr=subprocess.DEVNULL).strip()
+    except Exception: pass
+    old={}
+    try: old=json.load(open(d+'/meta.json'))
+    except Exception: pass
+    meta={"id":sid,"property":prop,"change":what,"needs_to_manifest":needs,"base_commit":base or old.get("base_commit"),
+          "produced_by":"fresh sub-agent given only the property text (asked for a dependence on something incidental: program size, statement order, names across scopes, rarely used constructs) and a scratch git worktree under /tmp",
+          "confirmed_by_me":{"demo_exit_with_change":conf.get("demo_with_change",{}).get("exit"),"demo_exit_without_change":conf.get("demo_without_change",{}).get("exit"),
+                             "repository_suite_with_change":(conf.get("suite_xdist",{}).get("last_line") or [None])[0], "suite_failures_confirmed_serially":conf.get("suite_failures_confirmed_serially")},
+          "checks_run":"FVERIF_REPO=<worktree with the change> ./check <id> --tier quick --no-evidence (same as applying the patch to /repo)",
+          "result":ran,"caught_by":checks}
+    json.dump(meta, open(d+'/meta.json','w'), indent=1)
+print(len(M7))
